@@ -139,12 +139,19 @@ def _check_tree(ctx, r, indent, eol, view):
     return True
 
 
+class SnippetHTML(ht.HTML):
+    """Trusted markup kept as written in a template file; its markup is the text without the surrounding blank lines."""
+
+    def as_string(self) -> str:
+        return self.data.strip("\n")
+
+
 # ------------------------------------------------------------------ oracle 2
 def rand_expr(rng, depth, need_html=True):
     """Returns expression recipe; guarantees Python-valid operand types."""
     if depth <= 0 or rng.random() < 0.25:
         if need_html:
-            return {"leaf": "html", "v": "".join(rng.choice(HOSTILE + ["h"]) for _ in range(rng.randint(0, 2)))}
+            return {"leaf": "html" if rng.random() < 0.85 else "htmlsnip", "v": "".join(rng.choice(HOSTILE + ["h"]) for _ in range(rng.randint(0, 2)))}
         k = rng.choice(["str", "str", "str", "html"])
         if k == "str":
             return {"leaf": "str", "v": gen.text_of(rng, rng.choice(["meta", "markup", "word", "mixed", "empty", "nl"]))}
@@ -191,6 +198,13 @@ def eval_expr(e, log, values=None):
             h = ht.HTML(e["v"])
             values.append((h, e["v"]))
             return h, ("html", [("html", e["v"])])
+        if e["leaf"] == "htmlsnip":
+            # trusted markup of a subclass that says itself what its markup is (as_string() drops the blank lines kept around it
+            # in the template file): that markup is what it contributes, as a child and as an operand
+            text = e["v"].strip("\n")
+            h = SnippetHTML("\n" + e["v"] + "\n")
+            values.append((h, text))
+            return h, ("html", [("html", text)])
         if e["leaf"] == "strobj":
             return StrObj(e["v"]), ("num", e["v"])  # any non-str object contributes str(object), escaped once
         if e["leaf"] in ("tagobj", "taglistobj"):
@@ -303,7 +317,7 @@ def check_expr(ctx, e):
     t4.attrs.update({"class": v}, class_=v)
     late = [(t1, ' class="%s"' % s, "add_class"), (t2, ' class="%s p &amp; q"' % s, "add_class(prepend)"),
             (t3, ' class="%s"' % s, "attrs[...] = "), (t4, ' class="%s %s"' % (s, s), "attrs.update")]
-    if s.endswith(";"):
+    if s.endswith(";") and type(v) is ht.HTML:
         late.append((ht.div("x").add_style(v), ' style="%s"' % s, "add_style"))
         late.append((ht.div("x", style="a: 'b';").add_style(v, prepend=True), ' style="%s a: &apos;b&apos;;"' % s, "add_style(prepend)"))
     for t_, want, what in late:
